@@ -1082,6 +1082,17 @@ pub fn accrue(vm: &mut Vm, bank: &VenueBank, factor_ppm: u64) -> u64 {
     add
 }
 
+/// Loss knob (the outside world acting; real DRIFT socialises a spot bankruptcy by LOWERING the cumulative deposit
+/// interest): `cumulative_deposit_interest *= (1 - factor_ppm / 10^6)` (floored, at least 1). The vault keeps its tokens
+/// (it then holds more than it owes). Does NOT touch `last_interest_ts`.
+pub fn loss(vm: &mut Vm, bank: &VenueBank, factor_ppm: u64) {
+    let factor_ppm = factor_ppm.min(1_000_000);
+    let sm = vm.data(&bank.spot_market).to_vec();
+    let ci = rd_u128(&sm, SM_CUM_DEPOSIT_INTEREST);
+    let nci = (ci * (1_000_000u128 - factor_ppm as u128) / 1_000_000u128).max(1);
+    vm.modify(&bank.spot_market, |a| wr(&mut a.data, SM_CUM_DEPOSIT_INTEREST, &nci.to_le_bytes()));
+}
+
 /// Exact underlying-per-collateral-unit rate of a DRIFT bank as (numerator, denominator): one collateral unit is one
 /// unit of DRIFT scaled balance (what marginfi books as asset shares, share value 1, 9 "decimals"), worth
 /// `cumulative_deposit_interest / 10^(19 - mint decimals)` native tokens of the underlying mint. Read from the raw
